@@ -33,6 +33,14 @@ CLAIMS["C03"] = ("other", "interprocedural taint (unprotected guards) + must-pas
     "Not decided: that references stay *unchanged*, the collector's own correctness, value-level aliasing beyond copies.",
     "DESIGN.md §4 C03", TRUST)
 
+CLAIMS["C07"] = ("other", "null-check contradiction rule (value-chain path search) + private-target rule over MIR",
+    "Clauses only: (T1) every value loaded from a nullable link of the structure is null-tested on every path before it is dereferenced "
+    "(so an iterator or reader cannot fault on a transiently empty tree bin or list end); (T2) resize, treeify and untreeify never write a "
+    "link of a node that other threads can reach, so an iterator standing inside an old bin list sees it intact. Both are necessary for weak "
+    "consistency. Not decided: termination and exactly-once yield across nested resizes (index arithmetic over run-time table lengths), and "
+    "'never yields a pair that was not in the map'.",
+    "DESIGN.md §4 C07", TRUST + " Four reviewed T1 exceptions are frozen by (function, field) with their invariant in vf/rules_c07.py.")
+
 NOT_APPLICABLE = {
     "C02": "Quantifies over all operation sequences x hashers x capacities and asserts equality of run-time values (return values, "
            "contents) with a reference map; no path-, type- or call-graph-shaped clause carries it. Its only structural clause "
